@@ -265,3 +265,20 @@ def prop(case, ctx):
             raise HarnessError('category %r' % (cat,))
         if not ok:
             fail('item %d differs: unpack %r, element-wise %r' % (i, a, b))
+
+
+def pre(ctx):
+    """deterministic sweep: every item type x {aligned, misaligned} x {pointer, array, slice} with a fixed
+    content (the random part weights the types; this makes sure that none is ever left out)"""
+    table = _type_table()
+    fixed = {'bool': [[0, 1, 1, 0, 1], [1, 0, 2, 1]],
+             'char16': [[0x41, 0xd83d, 0xde00, 0x20ac, 0], [0xdc00, 0x41, 0xd800]],
+             'char32': [[0x41, 0x1f600, 0x20ac, 0, 0x10ffff], [0x41, 0x110000, 0x42]]}
+    generic = [[0, 1, 2 ** 128 - 1, 0x8000000000000000, 0x3ff0000000000000, 0x7ff8000000000000,
+                0x0123456789abcdef0123456789abcdef, 0x7f7fffff7f7fffff, 0x80, 0x7f]]
+    for T in sorted(table):
+        for elems in fixed.get(table[T], generic):
+            for amod in (0, 1):
+                for view in ('ptr', 'array', 'slice'):
+                    prop({'T': T, 'n': len(elems) + 2, 'amod': amod, 'elems': elems, 'view': view}, ctx)
+    ctx.extra['item_types_swept'] = len(table)
